@@ -247,7 +247,7 @@ func (m *Machine) runFrame(fr *frame, stop *ssa.BasicBlock) bool {
 			if m.curSteps&0x3fff == 0 && !m.Deadline.IsZero() && time.Now().After(m.Deadline) {
 				m.incomplete("wall-limit: task stopped at the per-task wall-clock limit")
 				m.stopTask = true
-				panic(pathEnd{kind: "budget", msg: "wall"})
+				panic(taskStop{}) // not a pathEnd: must unwind through any merge in progress
 			}
 			if p := instr.Pos(); p != token.NoPos {
 				fr.curPos = p
@@ -382,6 +382,9 @@ type sideResult struct {
 	abort   abortMerge
 	end     pathEnd
 }
+
+// taskStop unwinds the whole path when the per-task wall-clock limit is reached.
+type taskStop struct{}
 
 func (m *Machine) runSide(fr *frame, from, to, join *ssa.BasicBlock, cond *term.Term, pcLen int) (res sideResult) {
 	defer func() {
@@ -949,6 +952,8 @@ func (m *Machine) runPath(fn *ssa.Function, args []value) {
 		if r := recover(); r != nil {
 			switch r := r.(type) {
 			case pathEnd:
+				return
+			case taskStop:
 				return
 			case abortMerge:
 				panic(engineError{"abortMerge escaped to top level: " + r.why})
